@@ -1,0 +1,53 @@
+//! Free-list head with a generation tag (ABA protection for offset-based lock-free stacks).
+//!
+//! The low 32 bits hold the offset of the first free block, the high 32 bits a counter that
+//! is incremented by every successful update. A pop that read `head = A, next = B` can then
+//! no longer succeed after other threads popped A and B and pushed A back: the offset is the
+//! same again but the tag is not.
+
+use std::sync::atomic::{AtomicU64, Ordering};
+
+#[derive(Debug)]
+pub(crate) struct TaggedHead(AtomicU64);
+
+impl TaggedHead {
+    pub(crate) fn new(offset: u32) -> Self {
+        Self(AtomicU64::new(offset as u64))
+    }
+
+    /// Current offset (without the tag).
+    #[inline]
+    pub(crate) fn load(&self, order: Ordering) -> u32 {
+        self.0.load(order) as u32
+    }
+
+    /// Current offset together with the raw snapshot to pass to `compare_exchange_weak`.
+    #[inline]
+    pub(crate) fn load_tagged(&self, order: Ordering) -> (u32, u64) {
+        let raw = self.0.load(order);
+        (raw as u32, raw)
+    }
+
+    /// Unconditionally set the offset (initialisation only).
+    #[inline]
+    pub(crate) fn store(&self, offset: u32, order: Ordering) {
+        self.0.store(offset as u64, order);
+    }
+
+    /// Replace the head by `new_offset` if it still equals `snapshot` (offset and tag).
+    #[inline]
+    pub(crate) fn compare_exchange_weak(
+        &self,
+        snapshot: u64,
+        new_offset: u32,
+        success: Ordering,
+        failure: Ordering,
+    ) -> std::result::Result<(), ()> {
+        let tag = (snapshot >> 32).wrapping_add(1) & 0xFFFF_FFFF;
+        let new = (tag << 32) | new_offset as u64;
+        self.0
+            .compare_exchange_weak(snapshot, new, success, failure)
+            .map(|_| ())
+            .map_err(|_| ())
+    }
+}
